@@ -39,6 +39,8 @@ RULE = ("seeded class-based marker layouts: 1-4 chromosomes (non-consecutive lab
         "combination, chromosomes descending / in random order / interleaved in storage (with vrnt_phypos also markers shuffled or "
         "reversed), chromosome labels 1..11, 0-based, {3,7,19,40}, negative and 2**40; grouped by group_vrnt / group(axis) / sort_vrnt+"
         "group_vrnt / twice, then optionally deep/shallow copied or taxa-permuted by select_taxa; 12% also submitted ungrouped; "
+        "factories given decision spaces that are the whole population, a strict subset of the taxa / crosses (candidate lists; for the "
+        "real/integer/binary encodings zero upper bounds), a permutation or the reverse, candidates drawn from that space; "
         "30% of the problems built by the selection "
         "protocols' problem(); haplomat() also with float32/int64 effects and int64/uint8/bool/float64 genomes; family 'lifecycle': "
         "long-lived OPV/GB/OHV(4 encodings) objects built by constructor (arbitrary float64/float32/int64 state in hostile layouts) or "
@@ -62,6 +64,8 @@ ASSUME = [
     "position inside a chromosome) any storage order is valid; after grouping the markers must be in chromosome/position order with their "
     "genotypes and labels attached (identity carried in vrnt_hapgrp); the model's u_a follows the grouped marker order",
     "factories reject ungrouped matrices (documented; counted as raised); one that accepts must still conserve every copy's additive value",
+    "a decision space lists eligible candidates only: prob.haplomat / ohvmat keep the whole population in taxon (cross) order and "
+    "candidates are population taxon (cross) indices, whatever the decision space is",
     "block values use the additive marker effects u_a only: fixed effects (beta) and misc random effects (u_misc) belong to no marker",
     "a problem object's public state is what its getters return now (haplomat / ohvmat / nbestfndr / obj_wt), whether it was assigned "
     "through a setter or written in place through the returned array; evalfn/_evaluate with the default identity transformation give "
@@ -538,6 +542,45 @@ def subset_args(ndecn, nspace, nobj):
                 decn_space_upper=numpy.repeat(nspace - 1, ndecn), nobj=nobj)
 
 
+def subset_space_args(g, ndecn, nspace, nobj):
+    """Subset encoding with a candidate list that may be the whole population (ascending), a strict subset of it (only
+    some taxa / crosses eligible), a permutation or the reverse.  Returns (constructor args, candidate list, class suffix)."""
+    r = g.random()
+    if r < 0.45 or nspace <= ndecn:
+        space, lab = numpy.arange(nspace), ""
+        if r >= 0.45 and nspace > 1:
+            space, lab = numpy.arange(nspace)[::-1].copy(), "/decision space reversed"
+    elif r < 0.75:
+        d = int(g.integers(ndecn, nspace))          # ndecn <= d < nspace
+        space = g.choice(nspace, d, replace=False)
+        space = numpy.sort(space) if g.random() < 0.6 else space
+        lab = "/decision space a strict subset"
+    elif r < 0.9:
+        space, lab = g.permutation(nspace), "/decision space permuted"
+    else:
+        space, lab = numpy.arange(nspace)[::-1].copy(), "/decision space reversed"
+    space = space.astype(int)
+    return dict(ndecn=ndecn, decn_space=space, decn_space_lower=numpy.repeat(int(space.min()), ndecn),
+                decn_space_upper=numpy.repeat(int(space.max()), ndecn), nobj=nobj), space, lab
+
+
+def vector_space_args(g, kind, nspace, nobj, keep):
+    """Real / integer / binary encoding where a restricted space is expressible through the bounds: entries outside
+    ``keep`` (>= 1 entries) get lower == upper == 0.  Returns (args, allowed entries, class suffix)."""
+    lo, up = {"Real": (0.0, 1.0), "Integer": (0, 5), "Binary": (0, 1)}[kind]
+    upv = numpy.repeat(up, nspace)
+    lab = ""
+    allowed = numpy.arange(nspace)
+    if g.random() < 0.4 and nspace > keep:
+        d = int(g.integers(keep, nspace))
+        allowed = numpy.sort(g.choice(nspace, d, replace=False))
+        mask = numpy.zeros(nspace, dtype=bool); mask[allowed] = True
+        upv = numpy.where(mask, upv, 0).astype(upv.dtype)
+        lab = "/decision space a strict subset"
+    lov = numpy.repeat(lo, nspace)
+    return dict(ndecn=nspace, decn_space=numpy.stack([lov, upv]), decn_space_lower=lov, decn_space_upper=upv, nobj=nobj), allowed, lab
+
+
 def vector_args(kind, nspace, nobj):
     lo, up = {"Real": (0.0, 1.0), "Integer": (0, 5), "Binary": (0, 1)}[kind]
     return dict(ndecn=nspace, decn_space=numpy.stack([numpy.repeat(lo, nspace), numpy.repeat(up, nspace)]),
@@ -698,8 +741,12 @@ def case_problems(ctx, c):
         for kind in kinds:
             cls = getattr(MOHV, "OptimalHaploidValue%sSelectionProblem" % kind)
             k = int(g.integers(1, min(ncfg, 4) + 1))
-            args = subset_args(k, ncfg, t) if kind == "Subset" else vector_args(kind, ncfg, t)
+            if kind == "Subset":
+                args, space, dlab = subset_space_args(g, k, ncfg, t)
+            else:
+                args, space, dlab = vector_space_args(g, kind, ncfg, t, k)
             if via_protocol:
+                space, dlab = numpy.arange(ncfg), ""
                 pcls = getattr(S["POHV"], "OptimalHaploidValue%sSelection" % kind)
                 make, msite = (lambda: pcls(unique_parents=unique, nparent=nparent, **proto_args).problem(pg, None, None, None, mod, 0, 1)), \
                     "%s.problem" % pcls.__name__
@@ -707,7 +754,7 @@ def case_problems(ctx, c):
                 make, msite = (lambda: cls.from_pgmat_gpmod(nparent=nparent, nhaploblk=nblk, unique_parents=unique, pgmat=pg, gpmod=mod, **args)), \
                     defsite(cls, "from_pgmat_gpmod")
             p, status, blocks2, icls2 = run_consumer(ctx, msite, defsite(Mix, "_calc_haplomat"), L, icls_app, coords, w, make)
-            icls2 += mcls
+            icls2 += mcls + dlab
             if p is None:
                 continue
             if via_protocol:
@@ -732,10 +779,10 @@ def case_problems(ctx, c):
             if not okm:
                 continue
             if kind == "Subset":
-                x = g.choice(ncfg, k, replace=False).astype(int)
+                x = g.choice(space, k, replace=False).astype(int)      # candidates drawn from the (possibly restricted) space
                 expl = -exp2[x].mean(0)
             else:
-                cnt = numpy.zeros(ncfg); sel = g.choice(ncfg, k, replace=False); cnt[sel] = 1
+                cnt = numpy.zeros(ncfg); sel = g.choice(space, k, replace=False); cnt[sel] = 1
                 x = {"Real": cnt * g.uniform(0.1, 1.0, ncfg), "Integer": (cnt * g.integers(1, 6, ncfg)).astype(int), "Binary": cnt.astype(int)}[kind]
                 expl = -(numpy.asarray(x, dtype=float) / float(numpy.sum(x))) @ exp2
             site = defsite(cls, "latentfn")
@@ -753,15 +800,20 @@ def case_problems(ctx, c):
     MOPV = S["MOPV"]
     cls = MOPV.OptimalPopulationValueSubsetSelectionProblem
     k = int(g.integers(1, n + 1))
-    x = numpy.sort(g.choice(n, k, replace=False)).astype(int) if g.random() < 0.5 else g.choice(n, k, replace=False).astype(int)
+    oargs, ospace, dlab = subset_space_args(g, k, n, t)
+    if via_protocol:
+        ospace, dlab = numpy.arange(n), ""
+    x = g.choice(ospace, k, replace=False).astype(int)      # taxon indices of candidates drawn from the decision space
+    x = numpy.sort(x) if g.random() < 0.5 else x
     site = defsite(cls, "_calc_haplomat")
     if via_protocol:
         pcls = S["POPV"].OptimalPopulationValueSubsetSelection
         make, msite = (lambda: pcls(nparent=k, **proto_args).problem(pg, None, None, None, mod, 0, 1)), "%s.problem" % pcls.__name__
     else:
-        make, msite = (lambda: cls.from_pgmat_gpmod(nhaploblk=nblk, pgmat=pg, gpmod=mod, **subset_args(k, n, t))), defsite(cls, "from_pgmat_gpmod")
+        make, msite = (lambda: cls.from_pgmat_gpmod(nhaploblk=nblk, pgmat=pg, gpmod=mod, **oargs)), defsite(cls, "from_pgmat_gpmod")
     p, status, blocks, icls = run_consumer(ctx, msite, site, L, icls_app, coords, w, make)
-    icls += mcls
+    icls += mcls + dlab
+    w = dict(w, decn_space=ospace)
     if p is not None and type(p) is not cls:
         ctx.check("C18.opv", False, msite, "protocol builds the OPV problem class", icls, witness=dict(w, got=type(p).__name__), coords=coords)
         p = None
@@ -788,10 +840,10 @@ def case_problems(ctx, c):
         pcls = S["PGB"].GenotypeBuilderSubsetSelection
         make, msite = (lambda: pcls(nparent=k, nbestfndr=nbest, **proto_args).problem(pg, None, None, None, mod, 0, 1)), "%s.problem" % pcls.__name__
     else:
-        make, msite = (lambda: cls.from_pgmat_gpmod(pgmat=pg, gpmod=mod, nhaploblk=nblk, nbestfndr=nbest, **subset_args(k, n, t))), \
+        make, msite = (lambda: cls.from_pgmat_gpmod(pgmat=pg, gpmod=mod, nhaploblk=nblk, nbestfndr=nbest, **oargs)), \
             defsite(cls, "from_pgmat_gpmod")
     p, status, blocks, icls = run_consumer(ctx, msite, site, L, icls_app, coords, w, make)
-    icls += mcls
+    icls += mcls + dlab
     if p is not None and type(p) is not cls:
         ctx.check("C18.gb", False, msite, "protocol builds the GB problem class", icls, witness=dict(w, got=type(p).__name__), coords=coords)
         p = None
@@ -873,6 +925,7 @@ def case_lifecycle(ctx, c):
 
     # ---- construction: directly from a state array, or from a genotype matrix and a model
     built = "constructor"
+    draw_from = None        # candidate list when the factory was given a restricted / permuted decision space
     prob = None
     try:
         if g.random() < 0.35:
@@ -887,9 +940,11 @@ def case_lifecycle(ctx, c):
             pg.group_vrnt()
             mod, _, _ = gen_model(g, S, u)
             if kind == "OPV":
-                prob = cls.from_pgmat_gpmod(nhaploblk=L["nblk"], pgmat=pg, gpmod=mod, **subset_args(k, n, t))
+                sargs, draw_from, _ = subset_space_args(g, k, n, t)
+                prob = cls.from_pgmat_gpmod(nhaploblk=L["nblk"], pgmat=pg, gpmod=mod, **sargs)
             elif kind == "GB":
-                prob = cls.from_pgmat_gpmod(pgmat=pg, gpmod=mod, nhaploblk=L["nblk"], nbestfndr=nbest, **subset_args(k, n, t))
+                sargs, draw_from, _ = subset_space_args(g, k, n, t)
+                prob = cls.from_pgmat_gpmod(pgmat=pg, gpmod=mod, nhaploblk=L["nblk"], nbestfndr=nbest, **sargs)
             else:
                 uq = bool(g.random() < 0.5)
                 xmap = numpy.asarray(cls._calc_xmap(n, nparent, uq)); nspace = xmap.shape[0]; k = min(k, nspace)
@@ -913,7 +968,7 @@ def case_lifecycle(ctx, c):
 
     def draw_x(p):
         if hap or kind == "OHV-Subset":
-            return g.choice(nspace, k, replace=False).astype(int)
+            return g.choice(nspace if draw_from is None else draw_from, k, replace=False).astype(int)
         cnt = numpy.zeros(nspace); cnt[g.choice(nspace, k, replace=False)] = 1
         sub = kind.split("-")[1]
         return {"Real": cnt * g.uniform(0.1, 1.0, nspace), "Integer": (cnt * g.integers(1, 6, nspace)).astype(int), "Binary": cnt.astype(int)}[sub]
